@@ -8,6 +8,14 @@ A case is an event history on the virtual-time loop, for one front-end:
               [t, 'd', k], [t, 'n', [c,..], dig, reason], [t, 'c', i], [t, 's'], [t, 't'], ...],
    'tie': None | {...}}           (see cases(): the tie stream is judged by the oracle only)
 
+Optional (hardening) fields.  Interest spec: 'ap': None|'e'|'p' (ApplicationParameters absent / present-empty /
+b'param'), 'sg': bool (signed, DigestSha256), 'mbf': bool (MustBeFresh), 'nrp': bool (legacy need_raw_packet),
+'nr': bool (v2 no_response), 'defer': ms (the awaitable returned by express is awaited that much later), 'php': k (caller-supplied digest placeholder inserted at position k of the name; never
+generated, see candidate_fixes/C03-placeholder-final-name.md), life 0.  Data: 'fp': FreshnessPeriod.  A name component
+>= 900 stands for the ParametersSha256DigestComponent of an Interest with that (ap, sg) on the rest of the name.
+Events: [t, 'd', k, 'lp'] = the Data arrives wrapped in an LpPacket; [t, 'b', [packet, ..]] = several packets
+(['d', k] / ['n', name, dig, reason]) in ONE loop turn (judged by the oracle alone, any order allowed).
+
 Interests are numbered in order of their 'x' events.  `dig`: None = no implicit digest, k = SHA-256 of
 Data k, -1 = a digest no Data has.  Times are ms after the start, strictly increasing; before every event
 the clock is advanced to its time and every due timer runs to quiescence.
@@ -41,7 +49,10 @@ TRUSTED = [
 RULE = ('event histories of 2..5 concurrently pending Interests over a 3-level name tree (same / nested / sibling '
         'names, CanBePrefix, implicit digest right or wrong), Data and Nack packets, caller cancellation, shutdown, '
         'clock ticks, scripted validators (verdict, latency straddling the deadline), both front-ends; separate '
-        'stream of same-loop-turn ties (timer or cancellation versus packet). non-trivial = at least two Interests '
+        'stream of same-loop-turn ties (timer or cancellation versus packet); hardening streams: Interests with '
+        'ApplicationParameters / a signature (name ends in the parameters digest; Data with the right / another digest / '
+        'none), MustBeFresh x FreshnessPeriod, legacy need_raw_packet, Data inside LpPackets, Nack reasons 0..2^64-1, '
+        'bursts of Data / Nack in one loop turn (any order allowed), lifetime 0, v2 no_response, late awaits. non-trivial = at least two Interests '
         'and at least one Interest finished by something other than its own timeout; distinct = distinct histories')
 
 NAMES = [[1], [1, 2], [1, 3], [1, 2, 4], [1, 2, 5], [1, 3, 4], [6]]
@@ -53,6 +64,37 @@ V1_VERDICTS = ['PASS'] * 7 + ['DEFAULT', 'FAIL', 'FAIL', 'NONE', 'ZERO', 'ONE', 
 # Data of the harness carries a valid DigestSha256 signature, so it accepts (its calls are not logged)
 V1_TRUTH = {'PASS': True, 'FAIL': False, 'NONE': None, 'ZERO': 0, 'ONE': 1, 'DEFAULT': True}
 T0 = 1000.0
+NACK_REASONS = [0, 50, 100, 150]
+NACK_ODD = [0, 1, 255, 256, 65535, 65536, 2 ** 32 - 1, 2 ** 32, 2 ** 32 + 50, 2 ** 64 - 1]
+PD_BASE = 900
+AP_KINDS = [None, 'e', 'p']
+
+
+def pd_code(ap, sg):
+    """name-component code of the ParametersSha256DigestComponent of an Interest with these parameters"""
+    # a signed Interest without ApplicationParameters carries an empty ApplicationParameters element on the wire
+    return PD_BASE + 2 * AP_KINDS.index(ap or 'e') + (1 if sg else 0)
+
+
+def pd_split(code):
+    k = code - PD_BASE
+    return AP_KINDS[k // 2], bool(k % 2)
+
+
+def has_pd(spec):
+    return bool(spec.get('ap') or spec.get('sg'))
+
+
+def eff_name(spec):
+    """the name of the Interest as it is on the wire (NDN packet format: an Interest with ApplicationParameters
+    carries a ParametersSha256DigestComponent; appended unless the caller supplied a placeholder)"""
+    if not has_pd(spec):
+        return list(spec['name'])
+    c = pd_code(spec.get('ap'), spec.get('sg'))
+    if spec.get('php') is not None:
+        k = spec['php']
+        return list(spec['name'][:k]) + [c] + list(spec['name'][k:])
+    return list(spec['name']) + [c]
 
 
 class ScriptedError(Exception):
@@ -64,7 +106,9 @@ def _is_prefix(a, b):
     return len(a) <= len(b) and b[:len(a)] == a
 
 
-def gen_history(rng, fe, n_events=None):
+def gen_history(rng, fe, n_events=None, p_ap=0.10, p_burst=0.03, p_odd=0.02, p_defer=0.0):
+    """p_ap: share of Interests with ApplicationParameters / a signature; p_burst: share of packet events that are
+    a burst in one loop turn; p_odd: share of Interests with lifetime 0 / no_response"""
     datas = []
     focus = rng.choice(NAMES[1:6])
     for k in range(rng.randint(2, 4)):
@@ -75,7 +119,10 @@ def gen_history(rng, fe, n_events=None):
             nm = rng.choice([n for n in NAMES if _is_prefix(focus, n) or _is_prefix(n, focus)])
         else:
             nm = rng.choice(NAMES)
-        datas.append({'name': nm, 'content': k})
+        d = {'name': nm, 'content': k}
+        if rng.random() < 0.3:
+            d['fp'] = rng.choice([0, 0, 1000])          # FreshnessPeriod (absent otherwise)
+        datas.append(d)
     n_int = rng.randint(2, 5)
     specs = []
 
@@ -98,8 +145,53 @@ def gen_history(rng, fe, n_events=None):
         s = {'name': nm, 'cbp': rng.random() < 0.45, 'dig': dig,
              'life': None if rng.random() < 0.04 else rng.choice(LIVES),
              'verdict': rng.choice(V2_VERDICTS if fe == 'v2' else V1_VERDICTS), 'lat': rng.choice(LATS)}
+        if rng.random() < 0.25:
+            s['mbf'] = True
+        if fe == 'v1' and rng.random() < 0.2:
+            s['nrp'] = True
+        if rng.random() < p_ap:
+            # a parameterised and/or signed Interest: its name ends in the parameters digest
+            if fe == 'v2':
+                s['ap'], s['sg'] = rng.choice([('e', True), ('p', True), ('p', True), (None, True)])
+            else:
+                s['ap'], s['sg'] = rng.choice([('e', True), ('p', True), ('p', False), ('e', False), (None, True)])
+            s['dig'] = None
+            # the Data that answers it, and sometimes the answer to the same name with other parameters
+            full = eff_name(s)
+            if not any(d['name'] == full for d in datas):
+                datas.append({'name': full, 'content': len(datas)})
+            if rng.random() < 0.4:
+                other = nm + [pd_code(*rng.choice([('e', True), ('p', True), ('p', False), ('e', False)]))]
+                if not any(d['name'] == other for d in datas):
+                    datas.append({'name': other, 'content': len(datas)})
+        if p_defer and rng.random() < p_defer:
+            s['defer'] = rng.choice([20, 60, 150, 300])     # ms between calling express and awaiting what it returned
+        r = rng.random()
+        if r < p_odd * 0.6:
+            s['life'] = 0
+        elif r < p_odd and fe == 'v2':
+            s['nr'] = True
         specs.append(s)
         return s
+
+    def a_nack():
+        if rng.random() < 0.75:
+            s = rng.choice(specs)
+            nm, dig = eff_name(s), s['dig']
+            if rng.random() < 0.2:
+                dig = None if has_pd(s) else rng.choice([None, -1] + list(range(len(datas))))
+            if has_pd(s) and rng.random() < 0.2:
+                nm = s['name']                    # the same name without the parameters digest: names nobody
+        else:
+            nm, dig = rng.choice(NAMES), rng.choice([None, None, -1, 0])
+        reason = rng.choice(NACK_REASONS) if rng.random() < 0.8 else rng.choice(NACK_ODD)
+        return ['n', nm, dig, reason]
+
+    def a_data():
+        ev = ['d', rng.randrange(len(datas))]
+        if rng.random() < 0.15:
+            ev.append('lp')
+        return ev
 
     evs = []
     t = 0
@@ -116,19 +208,21 @@ def gen_history(rng, fe, n_events=None):
             s = new_spec()
             evs.append([t, 'x', s])
             expressed += 1
-            horizon = max(horizon, t + life_of(s))
+            horizon = max(horizon, t + s.get('defer', 0) + life_of(s))
+        elif r < 0.76 and rng.random() < p_burst:
+            # several packets in one loop turn: mostly several Data for one name, sometimes a Nack among them
+            pk = [a_data() for _ in range(rng.randint(2, 3))]
+            if rng.random() < 0.5:
+                same = [k for k, d in enumerate(datas) if d['name'] == datas[pk[0][1]]['name']]
+                pk[1] = ['d', rng.choice(same)]
+            if rng.random() < 0.3:
+                pk[rng.randrange(len(pk))] = a_nack()
+            evs.append([t, 'b', pk])
         elif r < 0.62:
             # mostly a Data that matches something pending
-            evs.append([t, 'd', rng.randrange(len(datas))])
+            evs.append([t] + a_data())
         elif r < 0.76:
-            if rng.random() < 0.75:
-                s = rng.choice(specs)
-                nm, dig = s['name'], s['dig']
-                if rng.random() < 0.2:
-                    dig = rng.choice([None, -1] + list(range(len(datas))))
-            else:
-                nm, dig = rng.choice(NAMES), rng.choice([None, None, -1, 0])
-            evs.append([t, 'n', nm, dig, rng.choice([0, 50, 100, 150])])
+            evs.append([t] + a_nack())
         elif r < 0.88:
             i = rng.randrange(expressed)
             evs.append([t, 'c', i])
@@ -136,9 +230,9 @@ def gen_history(rng, fe, n_events=None):
                 t += rng.choice([10, 20])
                 s = specs[i]
                 if rng.random() < 0.5:
-                    evs.append([t, 'n', s['name'], s['dig'], 150])
+                    evs.append([t, 'n', eff_name(s), s['dig'], 150])
                 else:
-                    ks = [k for k, d in enumerate(datas) if _is_prefix(s['name'], d['name'])]
+                    ks = [k for k, d in enumerate(datas) if _is_prefix(eff_name(s), d['name'])]
                     evs.append([t, 'd', rng.choice(ks) if ks else 0])
         elif r < 0.92:
             evs.append([t, 's'])
@@ -177,6 +271,13 @@ def cases(rng, tier):
         yield gen_history(rng, 'v2' if k % 2 == 0 else 'v1')
     for k in range(200 if tier == 'quick' else 3000):
         yield gen_tie(rng, 'v2' if k % 2 == 0 else 'v1')
+    # hardening streams: parameterised / signed Interests; bursts in one loop turn; lifetime 0 and no_response
+    for k in range(300 if tier == 'quick' else 4000):
+        yield gen_history(rng, 'v2' if k % 2 == 0 else 'v1', p_ap=0.6, p_burst=0.05, p_odd=0.02)
+    for k in range(300 if tier == 'quick' else 4000):
+        yield gen_history(rng, 'v2' if k % 2 == 0 else 'v1', p_ap=0.1, p_burst=0.7, p_odd=0.25)
+    for k in range(200 if tier == 'quick' else 3000):
+        yield gen_history(rng, 'v2' if k % 2 == 0 else 'v1', p_ap=0.05, p_burst=0.03, p_odd=0.0, p_defer=0.5)
     if tier == 'thorough':
         # all histories of <= 5 events over a two-Interest alphabet (same name), both front-ends
         import itertools
@@ -231,8 +332,17 @@ def shrink(case):
         if evs[i][1] != 'x':
             yield mk(evs[:i] + evs[i + 1:])
     for i, e in enumerate(evs):
+        if e[1] == 'b':
+            for j in range(len(e[2])):
+                rest = e[2][:j] + e[2][j + 1:]
+                yield mk(evs[:i] + [[e[0]] + rest[0] if len(rest) == 1 else [e[0], 'b', rest]] + evs[i + 1:])
+        if e[1] == 'd' and len(e) > 3:
+            yield mk(evs[:i] + [e[:3]] + evs[i + 1:])
         if e[1] == 'x':
             s = e[2]
+            for key in ('mbf', 'nrp', 'nr', 'defer'):
+                if s.get(key):
+                    yield mk(evs[:i] + [[e[0], 'x', {k: v for k, v in s.items() if k != key}]] + evs[i + 1:])
             for key, simple in (('lat', 0), ('verdict', 'PASS'), ('dig', None), ('cbp', False)):
                 if s[key] != simple:
                     yield mk(evs[:i] + [[e[0], 'x', dict(s, **{key: simple})]] + evs[i + 1:])
@@ -241,6 +351,9 @@ def shrink(case):
     if len(case['datas']) > 1:
         used = {e[2] for e in evs if e[1] == 'd'} | {e[2]['dig'] for e in evs if e[1] == 'x'} | \
                {e[3] for e in evs if e[1] == 'n'}
+        for e in evs:
+            if e[1] == 'b':
+                used |= {q[1] if q[0] == 'd' else q[2] for q in e[2]}
         if case.get('tie'):
             used |= {case['tie']['packet'][1]} if case['tie']['packet'][0] == 'd' else set()
         last = len(case['datas']) - 1
@@ -256,11 +369,58 @@ def _lib():
     return enc, types, ndnlp, DigestSha256Signer
 
 
+AP_BYTES = {None: None, 'e': b'', 'p': b'param'}
+
+
+def pd_digest(enc, base, code):
+    """ParametersSha256DigestComponent value, computed here from the NDN packet format (not by the library):
+    SHA-256 over ApplicationParameters [, InterestSignatureInfo, InterestSignatureValue]; the DigestSha256 signature
+    value is SHA-256 over the other name components, ApplicationParameters and InterestSignatureInfo"""
+    ap, sg = pd_split(code)
+    params = b'\x24\x05param' if ap == 'p' else b'\x24\x00'
+    if not sg:
+        return hashlib.sha256(params).digest()
+    siginfo = b'\x2c\x03\x1b\x01\x00'
+    h = hashlib.sha256()
+    for c in base:
+        h.update(bytes(c))
+    h.update(params + siginfo)
+    return hashlib.sha256(params + siginfo + b'\x2e\x20' + h.digest()).digest()
+
+
 def mk_name(enc, comps, digest=None):
-    nm = [enc.Component.from_str('c%d' % c) for c in comps]
+    base = [enc.Component.from_str('c%d' % c) for c in comps if c < PD_BASE]
+    nm = []
+    for c in comps:
+        if c < PD_BASE:
+            nm.append(enc.Component.from_str('c%d' % c))
+        else:
+            nm.append(enc.Component.from_bytes(pd_digest(enc, base, c), enc.Component.TYPE_PARAMETERS_SHA256))
     if digest is not None:
         nm.append(enc.Component.from_bytes(digest, enc.Component.TYPE_IMPLICIT_SHA256))
     return nm
+
+
+def mk_interest_wire(enc, Signer, comps, digest=None):
+    """an Interest with this name as a forwarder would return it inside a Nack"""
+    par = enc.InterestParam(nonce=7, lifetime=1000)
+    pds = [c for c in comps if c >= PD_BASE]
+    if not pds:
+        return bytes(enc.make_interest(mk_name(enc, comps, digest), par))
+    ap, sg = pd_split(pds[0])
+    ph = enc.Component.from_bytes(bytes(32), enc.Component.TYPE_PARAMETERS_SHA256)
+    nm = [ph if c >= PD_BASE else enc.Component.from_str('c%d' % c) for c in comps]
+    if digest is not None:
+        nm.append(enc.Component.from_bytes(digest, enc.Component.TYPE_IMPLICIT_SHA256))
+    return bytes(enc.make_interest(nm, par, AP_BYTES[ap] if ap else None, signer=Signer() if sg else None))
+
+
+def lp_wrap(ndnlp, wire):
+    pkt = ndnlp.LpPacket()
+    pkt.lp_packet = ndnlp.LpPacketValue()
+    pkt.lp_packet.pit_token = b'\x01\x02\x03\x04'
+    pkt.lp_packet.fragment = wire
+    return bytes(pkt.encode())
 
 
 def mk_nack(enc, ndnlp, interest_wire, reason):
@@ -324,30 +484,89 @@ class Run:
         return v1
 
     def express(self, spec):
-        enc, _, _, _ = _lib()
+        enc, _, _, Signer = _lib()
         i = len(self.tasks)
-        nm = mk_name(enc, spec['name'], self.digest_of(spec['dig']))
+        comps = list(spec['name'])
+        nm = mk_name(enc, comps)
+        if spec.get('php') is not None:
+            nm.insert(spec['php'], enc.Component.from_bytes(bytes(32), enc.Component.TYPE_PARAMETERS_SHA256))
+        if spec['dig'] is not None:
+            nm.append(enc.Component.from_bytes(self.digest_of(spec['dig']), enc.Component.TYPE_IMPLICIT_SHA256))
         kw = {'lifetime': spec['life'], 'can_be_prefix': spec['cbp'], 'nonce': 1000 + i}
+        if spec.get('mbf'):
+            kw['must_be_fresh'] = True
+        ap = AP_BYTES[spec.get('ap')]
+        if self.fe == 'v2':
+            if ap is not None:
+                kw['app_param'] = ap
+            if spec.get('sg'):
+                kw['signer'] = Signer()
+        else:
+            if ap is not None:
+                kw['app_param'] = ap
+                if not spec.get('sg'):
+                    kw['signer'] = None        # an unsigned parameterised Interest
+            elif spec.get('sg'):
+                kw['signer'] = Signer()
+            if spec.get('nrp'):
+                kw['need_raw_packet'] = True
         app, val = self.rig.app, self.validator(i, spec)
+        self.specs.append(spec)
+        if spec.get('nr'):
+            # v2 no_response: the Interest is sent, nothing is returned and nothing is pending
+            try:
+                r = self.rig.loop.call_now(lambda: app.express(nm, val, no_response=True, **kw))
+                self.noresp[i] = ['noresp', self.now()] if r is None else ['internal', 'Returned' + type(r).__name__, self.now()]
+                if asyncio.iscoroutine(r):
+                    r.close()
+            except Exception as e:       # noqa
+                self.noresp[i] = ['internal', type(e).__name__, self.now()]
+            self.tasks.append(None)
+            return
+
+        if spec.get('defer'):
+            # the Interest is sent now; what express returned is awaited later (see await_deferred)
+            if self.fe == 'v2':
+                co = self.rig.loop.call_now(lambda: app.express(nm, val, **kw))
+            else:
+                co = self.rig.loop.call_now(lambda: app.express_interest(nm, validator=val, **kw))
+            self.tasks.append(None)
+            self.deferred.append([self.now() + spec['defer'], i, co])
+            return
 
         async def go():
             if self.fe == 'v2':
                 return await app.express(nm, val, **kw)
             return await app.express_interest(nm, validator=val, **kw)
-        self.specs.append(spec)
         task = self.rig.loop.create_task(go())
         self.tasks.append(task)
         task.add_done_callback(lambda _t, i=i: self.done_at.__setitem__(i, self.now()))
         self.rig.loop.settle()
 
+    def await_deferred(self, upto):
+        """start awaiting every deferred Interest whose time has come (at or before `upto` ms)"""
+        while self.deferred and min(d[0] for d in self.deferred) <= upto:
+            d = min(self.deferred, key=lambda x: (x[0], x[1]))
+            self.deferred.remove(d)
+            when, i, co = d
+            self.rig.loop.advance(T0 + when / 1000.0)
+
+            async def go(co=co):
+                return await co
+            task = self.rig.loop.create_task(go())
+            self.tasks[i] = task
+            task.add_done_callback(lambda _t, i=i: self.done_at.__setitem__(i, self.now()))
+            self.rig.loop.settle()
+
     def packet(self, p):
         """wire of a scripted packet: ['d', k] or ['n', name, dig, reason]"""
         enc, _, ndnlp, _ = _lib()
         if p[0] == 'd':
-            return self.wires[p[1]]
-        nm = mk_name(enc, p[1], self.digest_of(p[2]))
-        iw = enc.make_interest(nm, enc.InterestParam(nonce=7, lifetime=1000))
-        return mk_nack(enc, ndnlp, bytes(iw), p[3])
+            if p[1] >= len(self.wires):
+                return None
+            return lp_wrap(ndnlp, self.wires[p[1]]) if len(p) > 2 and p[2] == 'lp' else self.wires[p[1]]
+        _, _, _, Signer = _lib()
+        return mk_nack(enc, ndnlp, mk_interest_wire(enc, Signer, p[1], self.digest_of(p[2])), p[3])
 
     def pit(self):
         app = self.rig.app
@@ -363,6 +582,8 @@ class Run:
     def outcome(self, i):
         _, types, _, _ = _lib()
         t = self.tasks[i]
+        if t is None:
+            return self.noresp.get(i, ['pending'])
         if not t.done():
             return ['pending']
         at = self.done_at.get(i)
@@ -371,7 +592,12 @@ class Run:
         e = t.exception()
         if e is None:
             r = t.result()
-            return ['data', self.data_id(r[1] if self.fe == 'v2' else r[2]), at]
+            d = self.data_id(r[1] if self.fe == 'v2' else r[2])
+            if self.fe == 'v1' and bool(self.specs[i].get('nrp')) != (len(r) == 4):
+                return ['internal', 'ResultShape%d' % len(r), at]
+            if self.fe == 'v1' and len(r) == 4 and not (0 <= d < len(self.wires) and bytes(r[3]) == self.wires[d]):
+                return ['internal', 'RawPacketIsNotTheData', at]
+            return ['data', d, at]
         if isinstance(e, types.InterestNack):
             return ['nack', e.reason, at]
         if isinstance(e, types.InterestTimeout):
@@ -395,7 +621,7 @@ class Run:
             loop.create_task(self.rig.face.callback(typ, wire))
 
         def other():
-            if tie['kind'] == 'cancel' and self.tasks:
+            if tie['kind'] == 'cancel' and self.tasks and self.tasks[0] is not None:
                 self.tasks[0].cancel()
         if tie['kind'] == 'timer':
             # run everything strictly before the deadline, then put clock on the deadline without spinning the loop
@@ -421,8 +647,8 @@ class Run:
         case = self.case
         with AppRig(self.fe, t0=T0) as rig:
             self.rig = rig
-            self.wires = [bytes(enc.make_data(mk_name(enc, d['name']), enc.MetaInfo(), b'D%d' % d['content'],
-                                              signer=Signer())) for d in case['datas']]
+            self.wires = [bytes(enc.make_data(mk_name(enc, d['name']), enc.MetaInfo(freshness_period=d.get('fp')),
+                                              b'D%d' % d['content'], signer=Signer())) for d in case['datas']]
             if case.get('bad_sig'):
                 # every Data carries a corrupted DigestSha256 signature (matters to the legacy default validator only)
                 self.wires = [w[:-1] + bytes([w[-1] ^ 0xff]) for w in self.wires]
@@ -431,6 +657,8 @@ class Run:
                 _, _, _, sig = enc.parse_data(w)
                 self.sig2data[bytes(sig.signature_value_buf)] = case['datas'][k]['content']
             self.tasks, self.specs, self.done_at, self.vcalls, steps = [], [], {}, [], []
+            self.noresp = {}
+            self.deferred = []
             receive_raised = []
             tie = case.get('tie')
             tie_done = False
@@ -438,17 +666,25 @@ class Run:
                 if tie and not tie_done and ev[0] > tie['at']:
                     self.do_tie(tie)
                     tie_done = True
+                self.await_deferred(ev[0])
                 rig.loop.advance(T0 + ev[0] / 1000.0)
                 k = ev[1]
                 if k == 'x':
                     self.express(ev[2])
                 elif k == 'd':
                     if ev[2] < len(self.wires):
-                        rig.deliver(self.wires[ev[2]])
+                        rig.deliver(self.packet(ev[1:]))
                 elif k == 'n':
                     rig.deliver(self.packet(ev[1:]))
+                elif k == 'b':
+                    # as a stream face does when one read holds several packets: one task per packet, one loop turn
+                    for q in ev[2]:
+                        w = self.packet(q)
+                        if w is not None:
+                            rig.loop.create_task(rig.face.callback(rig._typ(w), w))
+                    rig.loop.settle()
                 elif k == 'c':
-                    if ev[2] < len(self.tasks):
+                    if ev[2] < len(self.tasks) and self.tasks[ev[2]] is not None:
                         self.tasks[ev[2]].cancel()
                         rig.loop.settle()
                 elif k == 's':
@@ -507,7 +743,7 @@ def model_events(case):
         t, k = ev[0], ev[1]
         if k == 'x':
             s = ev[2]
-            toks.append(f"{t}@x:{_nm(s['name'])}:{_dg(s['dig'])}:{1 if s['cbp'] else 0}:{life_of(fe, s)}:"
+            toks.append(f"{t}@x:{_nm(eff_name(s))}:{_dg(s['dig'])}:{1 if s['cbp'] else 0}:{life_of(fe, s)}:"
                         f"{model_verdict(fe, eff_verdict(case, s))}:{lat_of(s)}")
         elif k == 'd':
             if ev[2] < len(case['datas']):
@@ -526,8 +762,20 @@ def model_events(case):
     return toks
 
 
-def model_line(case, impl):
+def oracle_only(case):
+    """cases the model does not express: ties, bursts in one loop turn, lifetime 0, no_response, placeholders"""
     if case.get('tie'):
+        return True
+    for e in case['events']:
+        if e[1] == 'b':
+            return True
+        if e[1] == 'x' and (e[2]['life'] == 0 or e[2].get('nr') or e[2].get('php') is not None or e[2].get('defer')):
+            return True
+    return False
+
+
+def model_line(case, impl):
+    if oracle_only(case):
         return None
     toks = model_events(case)
     return f"C03 {case['fe']} {';'.join(toks) if toks else '.'}"
@@ -575,7 +823,7 @@ def impl_obs(impl):
 def spec_matches(spec, data, k):
     """the property statement: same name, or a longer name when CanBePrefix is set, and the packet hash when the
     Interest carries an implicit digest"""
-    nm, dn = spec['name'], data['name']
+    nm, dn = eff_name(spec), data['name']
     if not (nm == dn or (spec['cbp'] and len(dn) > len(nm) and dn[:len(nm)] == nm)):
         return False
     return spec['dig'] is None or spec['dig'] == k
@@ -602,6 +850,32 @@ def spec_allowed(case, i, strict, enforce=None):
     spec['lat'] = lat_of(spec)
     spec['verdict'] = eff_verdict(case, spec)
     dl = evs[pos][0] + life_of(fe, spec)
+    if spec.get('nr'):
+        # no_response: nothing is awaited, so nothing finishes; the Interest is off the books at once
+        return [['noresp', evs[pos][0]]]
+    if (fe == 'v2' and spec['life'] == 0) or spec.get('defer'):
+        # a late await (the legacy front-end starts its clock at the first await, the current one gives a grace
+        # period: DESIGN section 7, C03, spec decisions) is judged only for 'finishes exactly once, with an outcome
+        # the history can justify, no internal error' - except that a matching Data with an accepting, immediate
+        # validator that is the first thing to happen to the Interest, within its lifetime, IS its outcome
+        out = [['timeout', None]]
+        first = True
+        for e in evs[pos + 1:]:
+            if e[1] == 'd' and e[2] < len(case['datas']) and spec_matches(spec, case['datas'][e[2]], e[2]):
+                d = case['datas'][e[2]]['content']
+                if first and spec.get('defer') and e[0] < dl and accepting(fe, spec['verdict']) and not spec['lat']:
+                    return [['data', d, None]]
+                out += [r[:-1] + [None] for r in _verdict_outcomes(fe, spec, d, None, strict) if r is not None]
+                first = False
+            elif e[1] == 'n' and e[2] == eff_name(spec) and e[3] == spec['dig']:
+                out.append(['nack', e[4], None])
+                first = False
+            elif (e[1] == 'c' and e[2] == i) or e[1] == 's':
+                out.append(['cancelled', None])
+                first = False
+            elif e[1] == 'b':
+                first = False
+        return out
 
     def timers(cfg, t):
         """cfg -> list of cfgs after every timer due at or before t"""
@@ -630,7 +904,7 @@ def spec_allowed(case, i, strict, enforce=None):
                         d = case['datas'][e[2]]['content']
                         for enf in (enforce if enforce is not None else ((True,) if strict else (True, False))):
                             nxt.extend(timers(('V', d, t + lat_of(spec), enf), t))
-                    elif e[1] == 'n' and e[2] == spec['name'] and e[3] == spec['dig']:
+                    elif e[1] == 'n' and e[2] == eff_name(spec) and e[3] == spec['dig']:
                         nxt.append(('F', ['nack', e[4], t]))
                     elif (e[1] == 'c' and e[2] == i) or e[1] == 's':
                         nxt.append(('F', ['cancelled', t]))
@@ -656,6 +930,10 @@ def _verdict_outcomes(fe, spec, d, fin, strict):
     """what the validator's answer at `fin` makes of the Interest; None = nothing (only deadline / cancel end it)"""
     v = spec['verdict']
     if not strict:
+        if accepting(fe, v):
+            # the statement: a matching Data that arrived in time IS the outcome; an accepting validator is no
+            # reason for anything else (only its latency is: the caller decides whether the deadline is enforced)
+            return [['data', d, fin]]
         return [['data', d, fin], ['valfail', d, None, fin], ['verr', fin], None]
     if v == 'RAISE_OTHER':
         return [None] if fe == 'v2' else [['verr', fin]]
@@ -664,6 +942,33 @@ def _verdict_outcomes(fe, spec, d, fin, strict):
     if accepting(fe, v):
         return [['data', d, fin]]
     return [['valfail', d, v if fe == 'v2' else 'FAIL', fin]]
+
+
+def burst_orders(case, cap=48):
+    """the histories in which every burst is delivered packet by packet, in every order (a Data, Nack or timer in the
+    same loop turn as another event on the same Interest may resolve either way)"""
+    import itertools
+    variants = [[]]
+    for e in case['events']:
+        if e[1] != 'b':
+            variants = [v + [e] for v in variants]
+            continue
+        perms = list(itertools.permutations(e[2]))
+        if len(variants) * len(perms) > cap:
+            perms = perms[:1] + perms[-1:]
+        variants = [v + [[e[0]] + list(q) for q in perm] for v in variants for perm in perms]
+    return [dict(case, events=v) for v in variants]
+
+
+def allowed_outcomes(case, i, strict, enforce=None):
+    if not any(e[1] == 'b' for e in case['events']):
+        return spec_allowed(case, i, strict, enforce)
+    out = []
+    for v in burst_orders(case):
+        for pat in spec_allowed(v, i, strict, enforce):
+            if pat not in out:
+                out.append(pat)
+    return out
 
 
 def _fits(out, pat):
@@ -682,7 +987,7 @@ def oracle_common(case, impl, strict, enforce=None):
     tie = case.get('tie')
     if tie is None:
         for i, out in enumerate(impl['ints']):
-            allowed = spec_allowed(case, i, strict, enforce)
+            allowed = allowed_outcomes(case, i, strict, enforce)
             if not any(_fits(out, p) for p in allowed):
                 return f'Interest {i} finished with {out} but the history allows only {allowed}'
         # nothing about a finished Interest remains pending
@@ -764,7 +1069,24 @@ def tags(case, impl):
         t.append('same-name-pair')
     if any(a != b and _is_prefix(list(a), list(b)) for a in names for b in names):
         t.append('nested-names')
+    for e in case['events']:
+        if e[1] == 'b':
+            t.append('burst:' + ''.join(sorted(q[0] for q in e[2])))
+        if e[1] == 'd' and len(e) > 3:
+            t.append('data-in-lp')
+        for q in ([e[1:]] if e[1] == 'n' else [q for q in e[2] if q[0] == 'n'] if e[1] == 'b' else []):
+            if q[3] not in NACK_REASONS:
+                t.append('nack-reason-odd')
     for s in specs:
+        if has_pd(s):
+            t.append('params:%s%s' % (s.get('ap') or '-', 'S' if s.get('sg') else ''))
+        for key in ('mbf', 'nrp', 'nr', 'defer'):
+            if s.get(key):
+                t.append(key)
+        if s['life'] == 0:
+            t.append('life0')
+        if s['dig'] is not None and s['cbp']:
+            t.append('implicit-digest+cbp')
         if s['dig'] is not None:
             t.append('implicit-digest')
         if s['lat'] and s['lat'] > life_of(case['fe'], s):
